@@ -1,7 +1,7 @@
 """Matchers shared by the rule modules."""
 import ast
 
-from .core import AnalysisError, call_name, dotted, is_const, names_loaded, norm_stmt, src, walk_shallow, parents_map
+from .core import AnalysisError, SelfCheckError, call_name, dotted, is_const, names_loaded, norm_stmt, src, walk_shallow, parents_map
 
 
 def calls_in(node, suffix=None, exact=None):
@@ -150,7 +150,7 @@ class Rules:
                 chk.ob(name, self.repo.func(soft_for[0]), None, 'matcher of rule %s does not recognise this (renamed / restructured) form: %s; '
                        'its obligations are implied by the proven equality with the reference form' % (name, e), True, construct='implied ' + name, nontrivial=False)
             else:
-                chk.error(name, str(e), matcher=True)
+                chk.error(name, str(e), matcher=not isinstance(e, SelfCheckError))
         except Exception as e:  # a crash of one rule is an analysis error of that rule, never a verdict
             import traceback
             tb = traceback.extract_tb(e.__traceback__)[-1]
@@ -160,6 +160,11 @@ class Rules:
 def need(cond, msg):
     if not cond:
         raise AnalysisError(msg)
+
+
+def need_selfcheck(cond, msg):
+    if not cond:
+        raise SelfCheckError(msg)
 
 
 def single(items, what):
